@@ -83,10 +83,11 @@ Inductive value : Type :=
 | VUdt (l : list value).
 
 (* ------------------------------------------------------------------ helpers *)
-Fixpoint mapM {A B : Type} (f : A -> option B) (l : list A) : option (list B) :=
+Definition mapM {A B : Type} (f : A -> option B) : list A -> option (list B) :=
+  fix go (l : list A) : option (list B) :=
   match l with
   | [] => Some []
-  | x :: l' => match f x, mapM f l' with Some y, Some ys => Some (y :: ys) | _, _ => None end
+  | x :: l' => match f x, go l' with Some y, Some ys => Some (y :: ys) | _, _ => None end
   end.
 
 (* zip(fs, l): stops at the shorter one *)
@@ -134,6 +135,17 @@ Definition datetime_to_db_legacy (wall : Z) (tz : option (Z -> Z)) : Z :=
            | Some f => fsub ts (int_truediv (f 0) 1000000)
            end in
   ftrunc (fmul x (1000, 0)).
+
+(* The core driver's DateType.serialize(datetime), bit-exact:
+     timestamp_seconds = calendar.timegm(v.utctimetuple())                 -- floor of the instant in seconds
+     timestamp = timestamp_seconds * 1e3 + getattr(v, 'microsecond', 0) / 1e3
+     int64_pack(int(timestamp))
+   Its intended value is the instant in ms truncated toward zero; the float sum meets it on whole milliseconds and,
+   for any microsecond, within 2^44 ms of the epoch (see `valid`); beyond that it can be one millisecond off. *)
+Definition core_datetime_ms_float (wall : Z) (tz : option (Z -> Z)) : Z :=
+  let secs := (wall - tz_off tz wall) / 1000000 in
+  let us := wall mod 1000000 in
+  ftrunc (fadd (fmul (f_of_int secs) (1000, 0)) (fdiv (f_of_int us) (1000, 0))).
 
 (* ------------------------------------------------------------------ to_database *)
 (* Integer.validate / VarInt.validate: int(val) *)
@@ -325,6 +337,113 @@ Fixpoint cql_value (rich : bool) (t : cqltype) (v : pyval) {struct t} : option v
 Definition denote := cql_value false.
 Definition prepared_value := cql_value true.
 
+(* ------------------------------------------------------------------ the CQL literal cqlengine actually sends *)
+(* cqlengine executes non-prepared statements: every to_database output is rendered by cassandra.encoder.Encoder
+   (cql_encode_all_types, dispatch on the Python type; cqlengine's connection maps tuple to cql_encode_tuple, and a
+   registered UserType class to '{ field : value , ... }') and the server reads the text as a literal of the column's
+   type.  Literals are kept as tokens (the harness tokenises the real text); number/float/decimal/uuid/time texts
+   stand for the value Python printed. *)
+Inductive lit : Type :=
+| LNull
+| LInt (z : Z)                                  (* str(int); util.Date as its offset integer *)
+| LFloat (m e : Z) | LFloatSpec (k : Z)         (* repr(float) / NaN / Infinity / -Infinity / -0.0 *)
+| LStr (s : list Z)                             (* quoted text, quotes doubled *)
+| LHex (bs : list Z)                            (* 0x... *)
+| LBool (b : bool)                              (* str(bool): True / False *)
+| LUuid (z : Z)
+| LDecimal (neg : bool) (coeff exp : Z)         (* str(Decimal) *)
+| LInet (bs : list Z)                           (* quoted address text whose packed form is bs *)
+| LTime (ns : Z)                                (* quoted 'HH:MM:SS.nnnnnnnnn' *)
+| LDuration (neg : bool) (mo d ns : Z)          (* util.Duration.__str__: [-]<|mo|>mo<|d|>d<|ns|>ns, one sign for all *)
+| LList (l : list lit) | LSet (l : list lit) | LMap (l : list (lit * lit)) | LTuple (l : list lit) | LUdt (l : list lit).
+
+Fixpoint encode_literal (v : pyval) : option lit :=
+  match v with
+  | PNone => Some LNull
+  | PBool b => Some (LBool b)
+  | PInt z => Some (LInt z)
+  | PFloat m e => Some (LFloat m e)
+  | PFloatSpec k => Some (LFloatSpec k)
+  | PStr s => Some (LStr s)
+  | PBytes bs | PByteArray bs => Some (LHex bs)
+  | PDecimal n c e => Some (LDecimal n c e)
+  | PUuid z => Some (LUuid z)
+  | PInet bs => Some (LInet bs)
+  | PUtilDate d => Some (LInt (d + EPOCH_OFFSET_DAYS))
+  | PUtilTime ns => Some (LTime ns)
+  | PDuration mo d ns => Some (LDuration ((mo <? 0) || (d <? 0) || (ns <? 0)) (Z.abs mo) (Z.abs d) (Z.abs ns))
+  | PList l => option_map LList (mapM encode_literal l)
+  | PTuple l => option_map LTuple (mapM encode_literal l)
+  | PSet l => option_map LSet (mapM encode_literal l)
+  | PDict l => option_map LMap (mapM (fun kv => match encode_literal (fst kv), encode_literal (snd kv) with
+                                                | Some a, Some b => Some (a, b) | _, _ => None end) l)
+  | PUdt l => option_map LUdt (mapM encode_literal l)
+  | PDate _ | PDatetime _ _ | PTimeOfDay _ => None        (* never a to_database output *)
+  end.
+
+(* how the server reads a literal of a given type (CQL syntax reference; trusted) *)
+Definition scalar_lit_value (t : cqltype) (l : lit) : option value :=
+  match t, l with
+  | TInt, LInt z => if in_i32 z then Some (VInt z) else None
+  | TTinyInt, LInt z => if in_i8 z then Some (VInt z) else None
+  | TSmallInt, LInt z => if in_i16 z then Some (VInt z) else None
+  | TBigInt, LInt z | TCounter, LInt z => if in_i64 z then Some (VInt z) else None
+  | TVarInt, LInt z => Some (VInt z)
+  | TText, LStr s => if forallb is_scalar_cp s then Some (VText s) else None
+  | TAscii, LStr s => if forallb is_ascii_cp s then Some (VText s) else None
+  | TBlob, LHex bs => if forallb is_byte bs then Some (VBytes bs) else None
+  | TBoolean, LBool b => Some (VBool b)
+  | TFloat, LFloat m e => float_value32 m e
+  | TFloat, LFloatSpec k | TDouble, LFloatSpec k => Some (VFloatSpec k)
+  | TDouble, LFloat m e => Some (VFloat m e)
+  | TDecimal, LDecimal n c e => Some (VDecimal (if n then - c else c) (- e))
+  | TUuid, LUuid z | TTimeUuid, LUuid z => if in_range 0 (2 ^ 128) z then Some (VUuid z) else None
+  | TInet, LInet bs => if forallb is_byte bs && (Nat.eqb (length bs) 4 || Nat.eqb (length bs) 16)
+                       then Some (VInet bs) else None
+  | TDate, LInt z => if in_range 0 (2 ^ 32) z then Some (VDate (z - EPOCH_OFFSET_DAYS)) else None
+  | TTime, LTime ns => if in_i64 ns then Some (VTime ns) else None
+  | TTimestamp, LInt ms => if in_i64 ms then Some (VTimestamp ms) else None
+  | TDuration, LDuration neg mo d ns =>
+      Some (VDuration (if neg then - mo else mo) (if neg then - d else d) (if neg then - ns else ns))
+  | _, _ => None
+  end.
+
+Definition opt_lit (f : lit -> option value) (l : lit) : option value :=
+  match l with LNull => Some VNull | _ => f l end.
+
+Fixpoint lit_value (t : cqltype) (l : lit) {struct t} : option value :=
+  match t with
+  | TList t1 => match l with LList xs => option_map VList (mapM (lit_value t1) xs) | _ => None end
+  | TSet t1 => match l with LSet xs => option_map VSet (mapM (lit_value t1) xs) | _ => None end
+  | TMap k w => match l with
+                | LMap xs => option_map VMap
+                    (mapM (fun kv => match lit_value k (fst kv), lit_value w (snd kv) with
+                                     | Some a, Some b => Some (a, b) | _, _ => None end) xs)
+                | _ => None
+                end
+  | TTuple ts => match l with
+                 | LTuple xs => if (length xs <=? length ts)%nat
+                                then option_map VTuple (zipM (map (fun t' => opt_lit (lit_value t')) ts) xs)
+                                else None
+                 | _ => None
+                 end
+  | TUdt ts => match l with
+               | LUdt xs => if Nat.eqb (length xs) (length ts)
+                            then option_map VUdt (zipM (map (fun t' => opt_lit (lit_value t')) ts) xs)
+                            else None
+               | _ => None
+               end
+  | _ => scalar_lit_value t l
+  end.
+
+(* ------------------------------------------------------------------ sending the same object again *)
+(* The argument object after a to_database call: every column builds new objects for its result (UserDefinedType
+   converts the fields of deepcopy(value)), the argument is never written. *)
+Definition arg_after (c : col) (v : pyval) : pyval := v.
+
+Fixpoint send_history (c : col) (v : pyval) (n : nat) : list (option pyval) :=
+  match n with O => [] | S n' => to_database c v :: send_history c (arg_after c v) n' end.
+
 (* ------------------------------------------------------------------ valid values per column *)
 (* a finite binary64: at most 53 significant bits, magnitude below 2^1024 (the mantissa may be given in lowest terms) *)
 Definition valid_float64 (m e : Z) : bool :=
@@ -361,7 +480,8 @@ Definition valid_scalar (c : col) (v : pyval) : bool :=
       (((wall - tz_off tz wall) mod 1000 =? 0) || (Z.abs (Z.quot (wall - tz_off tz wall) 1000) <? 2 ^ 44)) &&
       in_i64 (Z.quot (wall - tz_off tz wall) 1000)
   | CDateTime, PDate d => in_i64 (d * 86400000)
-  | CDuration, PDuration _ _ _ => true
+  (* Cassandra rejects durations whose components differ in sign; the CQL literal has ONE leading sign for all of them *)
+  | CDuration, PDuration mo d ns => ((0 <=? mo) && (0 <=? d) && (0 <=? ns)) || ((mo <=? 0) && (d <=? 0) && (ns <=? 0))
   | _, _ => false
   end.
 
@@ -466,6 +586,20 @@ Fixpoint pyval_eqb (a b : pyval) {struct a} : bool :=
   | PDict x, PDict y =>
       forallb (fun u => existsb (fun w => pyval_eqb (fst u) (fst w) && pyval_eqb (snd u) (snd w)) y) x &&
       forallb (fun w => existsb (fun u => pyval_eqb (fst u) (fst w) && pyval_eqb (snd u) (snd w)) x) y
+  | _, _ => false
+  end.
+
+Fixpoint lit_eqb (a b : lit) {struct a} : bool :=
+  match a, b with
+  | LNull, LNull => true
+  | LInt x, LInt y | LFloatSpec x, LFloatSpec y | LUuid x, LUuid y | LTime x, LTime y => x =? y
+  | LFloat m e, LFloat m' e' => dy_eqb (m, e) (m', e')
+  | LStr x, LStr y | LHex x, LHex y | LInet x, LInet y => zlist_eqb x y
+  | LBool x, LBool y => Bool.eqb x y
+  | LDecimal n c e, LDecimal n' c' e' => Bool.eqb n n' && (c =? c') && (e =? e')
+  | LDuration n a1 a2 a3, LDuration n' b1 b2 b3 => Bool.eqb n n' && (a1 =? b1) && (a2 =? b2) && (a3 =? b3)
+  | LList x, LList y | LSet x, LSet y | LTuple x, LTuple y | LUdt x, LUdt y => list_eqb (fun u w => lit_eqb u w) x y
+  | LMap x, LMap y => list_eqb (fun u w => lit_eqb (fst u) (fst w) && lit_eqb (snd u) (snd w)) x y
   | _, _ => false
   end.
 
